@@ -40,6 +40,8 @@ class Armorable(metaclass=abc.ABCMeta):
     __crc24_init = 0x0B704CE
     __crc24_poly = 0x1864CFB
 
+    __cleartext_marker = '-----BEGIN PGP SIGNED MESSAGE-----'
+
     __armor_fmt = '-----BEGIN PGP {block_type}-----\n' \
                   '{headers}\n' \
                   '{packet}\n' \
@@ -112,8 +114,21 @@ class Armorable(metaclass=abc.ABCMeta):
         """
         m = {'magic': None, 'headers': None, 'body': bytearray(), 'crc': None}
         if not Armorable.is_ascii(text):
-            m['body'] = bytearray(text)
-            return m
+            # not ASCII: binary packet data, unless this is a cleartext-signed message whose text is not ASCII
+            # (binary OpenPGP data always starts with an octet that has its high bit set)
+            if isinstance(text, str) and Armorable.__cleartext_marker in text:
+                pass
+
+            elif (isinstance(text, (bytes, bytearray)) and text[:1] < b'\x80'
+                    and Armorable.__cleartext_marker.encode('ascii') in text):
+                try:
+                    text = text.decode('utf-8')
+                except UnicodeDecodeError:
+                    text = text.decode('latin-1')
+
+            else:
+                m['body'] = bytearray(text)
+                return m
 
         if isinstance(text, (bytes, bytearray)):  # pragma: no cover
             text = text.decode('latin-1')
@@ -191,7 +206,11 @@ class Armorable(metaclass=abc.ABCMeta):
     @classmethod
     def from_blob(cls, blob):
         obj = cls()
-        if (not isinstance(blob, bytes)) and (not isinstance(blob, bytearray)):
+        if isinstance(blob, str) and not cls.is_ascii(blob) and Armorable.__cleartext_marker in blob:
+            # a cleartext-signed message whose text is not ASCII stays text
+            po = obj.parse(blob)
+
+        elif (not isinstance(blob, bytes)) and (not isinstance(blob, bytearray)):
             po = obj.parse(bytearray(blob, 'latin-1'))
 
         else:
